@@ -35,6 +35,7 @@ class S(vlib.Spec):
         "hand-written model coq/Idl/Trim.v (mirrors mark.go / pre-process.go / traversal.go / doTrimAST statement by statement; pointer identity of AST nodes = Filename + position)",
         "the regexp engines are Section variables of the model: regexp2 MatchString / Compile for -m patterns and Go regexp for the @preserve comment; the harness evaluates them with the same engines for every question the model can ask",
         "harness/astdump + harness/idlast (real *parser.Thrift -> Coq term, shared IDL core), harness/cmd/c16 (program generator, drives trim.TrimAST in-process, the trimmer binary and thriftgo -g go:trim_idl), harness/idlgen RenderFile (re-parsing the observed output), lib/vlib.py",
+        "Idl/Resolve*.v, Idl/Resolvable*.v (C05): their definitions of resolvable / occ_good are used in the statement of C16_trim_resolves, and resolve_complete in its proof",
         "preserved_files are compared as recorded Filenames (the Go code compares absolute paths); identifiers are ASCII (toGoName)",
     ]
     assumptions = ["programs are accepted by parser + checker + resolver (rejected ones are counted and skipped)",
